@@ -110,6 +110,8 @@ func genC18(tier string, seed uint64, n int, e *Emitter) {
 		}
 		e.Emit(cs)
 	}
+	// (4) syntax errors of generated erroneous documents (harness/c18syn.go)
+	c18GenSyntax(tier, seed, n/4, e)
 	// (1) direct calls of GetLocation
 	for i := 0; i < n; i++ {
 		r := NewRng(seed, uint64(i))
